@@ -26,7 +26,8 @@ def budget(tier):
     return dict(examples=700, shards=4, procs=4)
 
 
-MONOMERS = {'PEO': '[$]COC[$]', 'PE': '[$]CC[$]', 'TFE': '[$]C(F)(F)[$]', 'DMS': '[$]CSC[$]', 'PA': '[$]C=C[$]'}
+MONOMERS = {'PEO': '[$]COC[$]', 'EO': '[$]COC[$]', 'PE': '[$]CC[$]', 'ET': '[$]CC[$]',     # (EO/ET: same body under another name)
+             'TFE': '[$]C(F)(F)[$]', 'DMS': '[$]CSC[$]', 'PA': '[$]C=C[$]'}
 CAPS = {'Me': 'C[$]', 'OH': 'O[$]', 'NH2': '[$]N', 'Cl': '[$]Cl'}
 
 
